@@ -462,6 +462,9 @@ class ASTSimplifyMapper(ASTIdentityMapper):
         # current_child is the current AST node that is being worked on.
         current_child = children_queue.popleft()
         while isinstance(current_child, NullASTNode):
+            if not children_queue:
+                # Nothing but null nodes.
+                return NullASTNode()
             current_child = children_queue.popleft()
 
         while children_queue:
